@@ -188,6 +188,96 @@ def exec_func(p, f, vs):
     return exec_seq(p[1], f[2], init_store(vs))
 
 
+# ---------------- concrete executions (numbers) ----------------
+
+NUM_LIMIT = 10 ** 300
+
+
+class Plan:
+    """how the choices that are not determined by the store are taken in a concrete run: every while-loop runs `wc`
+    times; an if takes the first branch ("t"), the second ("f") or alternates between visits ("alt")"""
+    def __init__(self, wc, br):
+        self.wc, self.br, self.visits = wc, br, 0
+
+    def branch(self):
+        self.visits += 1
+        return {"t": True, "f": False}.get(self.br, self.visits % 2 == 1)
+
+
+def num_stmt(s, env, plan):
+    """concrete execution on natural numbers; a counted for-loop with guard X runs its body X times (X as it is when the
+    loop is entered: the body does not mention it); `-` is read like `+`.  None = outside the fragment."""
+    k = s[0]
+    if k == "skip":
+        return env
+    if k == "copy":
+        env[s[1]] = env[s[2]]
+        return env
+    if k == "bin":
+        if s[3][0] != "var" or s[4][0] != "var" or s[2] not in ("+", "-", "*"):
+            return None
+        a, b = env[s[3][1]], env[s[4][1]]
+        val = a * b if s[2] == "*" else a + b
+        if val > NUM_LIMIT:
+            raise TooBig()
+        env[s[1]] = val
+        return env
+    if k == "block":
+        for x in s[1]:
+            env = num_stmt(x, env, plan)
+            if env is None:
+                return None
+        return env
+    if k == "if":
+        for x in (s[1] if plan.branch() else s[2]):
+            env = num_stmt(x, env, plan)
+            if env is None:
+                return None
+        return env
+    if k in ("while", "for"):
+        if k == "for":
+            if not counted(s):
+                return None
+            n, body = env[for_guard(s)[0]], s[5]
+            if n > 200:
+                raise TooBig()
+        else:
+            n, body = plan.wc, s[2]
+        for _ in range(n):
+            env = num_stmt(body, env, plan)
+            if env is None:
+                return None
+        return env
+    return None
+
+
+def growth(f, vs, span=8):
+    """pairs (input u, variable v) such that the final value of v strictly increases with the initial value of u over
+    `span` consecutive values (all other inputs 2), in some concrete run -- together with the witness.  After as many
+    iterations as there are variables a value that still grows with the count grows for ever (no subtraction, no
+    constants), so such a u must appear in every bound of v."""
+    out = {}
+    lo = len(vs) + 2
+    for wc, br in ((1, "t"), (2, "f"), (1, "alt"), (2, "alt")):
+        for u in vs:
+            seqs = []
+            try:
+                for n in range(lo, lo + span + 1):
+                    env = {v: 2 for v in vs}
+                    env[u] = n
+                    env = num_stmt(("block", f[2]), env, Plan(wc, br))
+                    if env is None:
+                        return out
+                    seqs.append(env)
+            except TooBig:
+                continue
+            for v in vs:
+                if v != u and (u, v) not in out and all(seqs[i][v] < seqs[i + 1][v] for i in range(span)):
+                    out[(u, v)] = {"while_count": wc, "branches": br, "input": u, "values_of_input": [lo, lo + span],
+                                   "final_values": [seqs[0][v], seqs[-1][v]]}
+    return out
+
+
 # ---------------- paths ----------------
 
 def count_paths(s, K):
